@@ -10,7 +10,7 @@ for f in sorted(glob.glob("/tmp/seedlog*.txt")):
     cur = None
     section = None
     for ln in open(f, errors="replace"):
-        m = re.match(r"^##### /tmp/seed-(C\d+)/out/change(\d) \((C\d+)\)", ln)
+        m = re.match(r"^##### /tmp/seed2?-(C\d+)/out/change(\d) \((C\d+)\)", ln)
         if m:
             cur = rows.setdefault("%s-change%s" % (m.group(1), m.group(2)), {"build": "?", "tests": "?", "with": "?", "without": "?", "check": "?"})
             section = None
